@@ -24,7 +24,7 @@ func Rng(seed int64, prop string, c int) *rand.Rand {
 func Pick[T any](r *rand.Rand, xs []T) T { return xs[r.Intn(len(xs))] }
 
 // HostileKeys are near-colliding key strings (the implementation joins renderings with '.').
-var HostileKeys = []string{"a", "a.b", "b", "b.c", "a.", ".", "a.b.c", "ab", "A", "a ", "c", "1", "10", "9", "b.", ".c", "a..b", "\\", "a\\", "a\\.b", ".b", "\\.", "a\\\\"}
+var HostileKeys = []string{"a", "a.b", "b", "b.c", "a.", ".", "a.b.c", "ab", "A", "a ", "c", "1", "10", "9", "b.", ".c", "a..b", "\\", "a\\", "a\\.b", ".b", "\\.", "a\\\\", "100%", "100%25", "%s", "%v", "a%.0s"}
 
 // SortKeys are sort-key strings that are prefixes of one another / order traps.
 var SortKeys = []string{"1", "10", "9", "a", "ab", "abc", "b", "", "B", "a.b", "."}
